@@ -18,6 +18,7 @@ func init() {
 }
 
 func runC07(c *Ctx) {
+	respCtors := responseCtors(c)
 	// ---- R1 interpreter: validate before run
 	c.rule("C07-R1", "MPT/GRD: in Interpreter.ExecuteRoute the route body (executeStatements) is unreachable from entry once the no-contract edges (route.InputType==nil, type definition unknown) and the validators' err==nil edges are deleted: whenever a contract exists - of any shape: Item, Item?, Item | Other, [Item] - every path to the body passed ValidateObjectAgainstTypeDef or CheckType(body, route.InputType) successfully (or returned a 4xx before)")
 	if er := c.mustFn("C07-R1", interpPkg, "Interpreter.ExecuteRoute"); er != nil {
@@ -96,11 +97,7 @@ func runC07(c *Ctx) {
 					for si, s := range b.Succs {
 						if nonNilOnEdge(b, si, call) {
 							q2 := &pathQuery{fn: w, target: func(x ssa.Instruction) bool {
-								st, ok := x.(*ssa.Store)
-								if !ok || !isStoreToField(st, "Response", "StatusCode") {
-									return false
-								}
-								k, ok := constInt(st.Val)
+								k, ok := respStatusMadeAt(respCtors, x)
 								return ok && k >= 400 && k < 500
 							}}
 							h, _ := q2.from(s, 0)
@@ -132,11 +129,7 @@ func runC07(c *Ctx) {
 						c.ob("C07-R1", interpPkg+".Interpreter.ExecuteRoute#validation-failure-does-not-run-body", v.Pos(), hit == nil, "after a validation failure the body is still reachable")
 						okStatus := false
 						q2 := &pathQuery{fn: er, target: func(x ssa.Instruction) bool {
-							st, ok := x.(*ssa.Store)
-							if !ok || !isStoreToField(st, "Response", "StatusCode") {
-								return false
-							}
-							k, ok := constInt(st.Val)
+							k, ok := respStatusMadeAt(respCtors, x)
 							return ok && k >= 400 && k < 500
 						}}
 						if h, _ := q2.from(s, 0); h != nil {
@@ -339,11 +332,7 @@ func runC07(c *Ctx) {
 					for si, s := range b.Succs {
 						if nonNilOnEdge(b, si, v) {
 							q2 := &pathQuery{fn: er, target: func(x ssa.Instruction) bool {
-								st, ok := x.(*ssa.Store)
-								if !ok || !isStoreToField(st, "Response", "StatusCode") {
-									return false
-								}
-								k, ok := constInt(st.Val)
+								k, ok := respStatusMadeAt(respCtors, x)
 								return ok && k >= 500
 							}}
 							h, _ := q2.from(s, 0)
@@ -1028,8 +1017,32 @@ func runC07(c *Ctx) {
 						for _, b := range fn.Blocks {
 							for si, succ := range b.Succs {
 								if known, val := boolOnEdge(b, si, okv); known && val {
-									q := &pathQuery{fn: fn, target: func(x ssa.Instruction) bool {
+									isCheck := func(x ssa.Instruction) bool {
 										return isCallTo(x, interpPath+".TypeChecker.CheckType", interpPath+".TypeChecker.ValidateObjectAgainstTypeDef")
+									}
+									q := &pathQuery{fn: fn, target: func(x ssa.Instruction) bool {
+										if isCheck(x) {
+											return true
+										}
+										// a helper that is handed a part of the asserted type and checks against it
+										cl, ok := x.(*ssa.Call)
+										if !ok {
+											return false
+										}
+										sf := staticFn(cl)
+										if sf == nil || sf == ct || sf.Pkg != ct.Pkg {
+											return false
+										}
+										fromKind := false
+										for _, a := range cl.Call.Args {
+											if derivesFrom(a, func(v ssa.Value) bool {
+												e, ok := v.(*ssa.Extract)
+												return ok && e.Tuple == ssa.Value(ta) && e.Index == 0
+											}) {
+												fromKind = true
+											}
+										}
+										return fromKind && reachesInstr(sf, isCheck, 0, map[*ssa.Function]bool{})
 									}}
 									if h, _ := q.from(succ, 0); h != nil {
 										found = true
